@@ -703,6 +703,27 @@ pub fn build(seed: u64, size: usize) -> Pool {
             let mut dup = set.clone();
             dup.push(set[0]);
             pushf(&mut ops, Op::Compact { cells: dup }, g, fam);
+            // same length as the full set, but one member missing and another one repeated; all
+            // copies of one member; the sorted forms of both
+            let mut minus_dup = minus.clone();
+            minus_dup.push(minus[rng.below(minus.len() as u64) as usize]);
+            pushf(&mut ops, Op::Compact { cells: minus_dup.clone() }, g, fam);
+            let mut md_sorted = minus_dup.clone();
+            md_sorted.sort_unstable();
+            pushf(&mut ops, Op::Compact { cells: md_sorted }, g, fam);
+            pushf(&mut ops, Op::Compact { cells: vec![set[0]; set.len().min(8)] }, g, fam);
+            let mut sorted = set.clone();
+            sorted.sort_unstable();
+            pushf(&mut ops, Op::Compact { cells: sorted.clone() }, g, fam);
+            // the four children of one cell: all, and three of them with one repeated
+            if let Ok(kids) = a5::cell_to_children(sorted[0], None) {
+                if kids.len() == 4 {
+                    pushf(&mut ops, Op::Compact { cells: kids.clone() }, g, fam);
+                    pushf(&mut ops, Op::Compact { cells: vec![kids[0], kids[1], kids[2], kids[2]] }, g, fam);
+                    pushf(&mut ops, Op::Compact { cells: vec![kids[0], kids[1], kids[2]] }, g, fam);
+                    pushf(&mut ops, Op::Compact { cells: vec![kids[3], kids[1], kids[1], kids[0]] }, g, fam);
+                }
+            }
             pushf(&mut ops, Op::Uncompact { cells: vec![c], res: r + 2 }, g, fam);
             pushf(&mut ops, Op::Uncompact { cells: vec![c], res: r + 1 }, g, fam);
             pushf(&mut ops, Op::Uncompact { cells: minus.iter().copied().take(3).collect(), res: r + 2 }, g, fam);
